@@ -197,6 +197,46 @@ def h_conn(upg, conn, acc, sub, via="connect"):
         cover("refused")
 
 
+HEAD_KINDS = {"full": (1, 1, 1, 1), "none": (0, 0, 0, 0), "accept-only": (0, 0, 1, 0), "upg-conn": (1, 1, 0, 0), "no-sub": (1, 1, 1, 0), "sub-only": (0, 0, 0, 1)}
+
+
+def h_heads(s1, k1, s2, k2, sub, via="connect"):
+    """the server answers with TWO response heads back to back (e.g. an interim 1xx head, then the final one).  connect() may
+    return connected only on the strength of ONE head that is a complete valid 101 by itself (preceded, at most, by interim 1xx
+    heads); fields of different heads are never combined, and a valid first head is accepted."""
+    quiet_logging()
+    offered = ["chat", "superchat"] if sub else None
+
+    def head(status, kind, key):
+        u, c, a, p = HEAD_KINDS[kind]
+        return _response("HTTP/1.1 %d X" % status, "websocket" if u else None, "Upgrade" if c else None, accept_for(key) if a else None,
+                         "chat" if (p and sub) else None)
+
+    def respond(server, hd, key):
+        return head(s1, k1, key) + head(s2, k2, key)
+
+    k, net = _mk([{"respond": respond}])
+    opts = {"subprotocols": offered} if offered else {}
+    ws, exc, obj = _connect(k, net, via, redirect_limit=0, **opts)
+
+    def valid(status, kind):
+        u, c, a, p = HEAD_KINDS[kind]
+        return status == 101 and u and c and a and (p or not sub)
+    ok1 = valid(s1, k1)
+    ok2 = valid(s2, k2) and s1 in (100, 102, 103)
+    info = dict(s1=s1, k1=k1, s2=s2, k2=k2, sub=sub, via=via)
+    if ws is not None:
+        sx.require(ok1 or ok2, "connect() returned connected although NO single response head is a complete valid upgrade (fields of an interim "
+                   "head and of the final head must not be combined)", **info)
+        if sub:
+            sx.require(ws.subprotocol == "chat", "negotiated subprotocol is the one selected by the accepted head", got=str(ws.subprotocol), **info)
+        cover("heads-connected")
+    else:
+        sx.require(not ok1, "a valid upgrade response must be accepted", exc=type(exc).__name__, **info)
+        sx.require(all(sk.closed for sk in net.socks), "a failed connect closes the transport", **info)
+        cover("heads-refused")
+
+
 def h_redirect(chain, limit, last):
     """chain of `chain` redirect responses followed by `last` ('ok' = valid 101, 'bad' = 403); redirect_limit = limit"""
     quiet_logging()
@@ -277,6 +317,9 @@ def obligations(tier):
             for s in ("none", "right", "rightcase", "wrong", "missing")
             if thorough or (u in ("right", "list", "wrong", "missing") and c in ("right", "list", "wrong", "missing")) or (a == "right" and s == "none")]
     conn += [dict(upg="right", conn="right", acc=a, sub=s, via="create_connection") for a in ("right", "otherkey", "missing") for s in ("none", "wrong")]
+    heads = [dict(s1=a, k1=ka, s2=b, k2=kb, sub=sub) for a in (100, 101, 102, 103, 200) for ka in HEAD_KINDS for b in (101, 200) for kb in HEAD_KINDS
+             for sub in (False, True) if (sub or ("sub" not in ka and "sub" not in kb))]
+    heads += [dict(s1=100, k1=ka, s2=101, k2=kb, sub=True, via="create_connection") for ka in HEAD_KINDS for kb in HEAD_KINDS]
     red = [dict(chain=c, limit=l, last=la) for c in range(0, 5) for l in range(0, 4) for la in ("ok", "bad")]
     return [
         Obligation("H-val", h_val, val, bounds="Upgrade / Connection: every ASCII string of length 0..%d, plus the right token with 1..%d symbolic characters inserted or "
@@ -287,6 +330,10 @@ def obligations(tier):
                    "token list, spaces, wrong, missing) x accept {this key, another key, garbled, missing, upper-case} x subprotocol {not offered, right, "
                    "case, wrong, missing}; connect() and create_connection()", must_cover=["connected", "refused"], budget_s=2400, step_budget=100000,
                    kernel=["WebSocket.connect", "create_connection", "_handshake.handshake", "_get_resp_headers", "_validate", "_http.read_headers"]),
+        Obligation("H-heads", h_heads, heads, bounds="two response heads back to back: first status {100,101,102,103,200}, second {101,200}; each head "
+                   "carrying all / none / only the accept / only Upgrade+Connection / all but the subprotocol / only the subprotocol; subprotocols offered or not",
+                   must_cover=["heads-connected", "heads-refused"], step_budget=100000,
+                   kernel=["_http.read_headers", "_handshake._get_resp_headers", "_validate", "WebSocket.connect"]),
         Obligation("H-redirect", h_redirect, red, bounds="redirect chains of length 0..4 against redirect_limit 0..3, ending in a valid 101 or a 403",
                    must_cover=["redirect-connected", "redirect-refused"], step_budget=100000, kernel=["WebSocket.connect (redirect loop)"]),
         Obligation("H-fault", h_fault, [dict(kind="eof"), dict(kind="silence")], bounds="valid 101 response truncated at EVERY byte position, followed by "
